@@ -70,12 +70,17 @@ type Program struct {
 	ctrl map[*ssa.BasicBlock][]ctrlEdge // cache of the branch edges dominating a block
 	// countOfTok: calls strings.Count(s, sep) whose value is len(strings.Split(s, sep)) - 1 for
 	// the one tokeniser call of the validator (same SSA operand, same non-empty constant separator)
+	// walkCount: the strings.Count call that stands for the tokeniser in a validator that cuts
+	// the sentence word by word instead of splitting it (G3)
+	walkCount  map[*ssa.Call]bool
 	countOfTok map[*ssa.Call]bool
 	// paramGlobal: parameters of a function an anchored entry point forwards to that receive
 	// the value of a package-level variable (`return newMnemonic(cryptoRander, n, lang)`)
 	paramGlobal map[*ssa.Parameter]*ssa.Global
 	// splitters: module functions matched against the hand-written byte splitter shape
 	// (byteSplitter), with the separator ("" = not one)
+	// nfkdFns: module functions matched against the NFKD-with-fast-path shape (nfkdHelper)
+	nfkdFns   map[*ssa.Function]bool
 	splitters map[*ssa.Function]string
 }
 
